@@ -3,6 +3,7 @@ import JsonVerif.Lemmas.Steps
 import JsonVerif.Model.Entry
 import JsonVerif.Gen.ParsePresets
 import JsonVerif.Lemmas.LenientStr
+import JsonVerif.Lemmas.LHub
 /-!
 # C12 — Lenient options: conservative extension relaxing only surrogate escapes
 
@@ -93,6 +94,35 @@ theorem C12_lone_high_needs_trunc (i : Bool) (a b c d : Char) (hi : Nat) (h1 : h
     rw [h1] at l1; cases l1
     have := isLow_not_high l2
     rw [h2] at this; cases this
+
+/-- **Exactness at the document level** (second sentence of the property, whole documents): under
+    ANY option record `o` the parser accepts a text with value `v` if and only if the text is an
+    `LDoc o` with content `v` — the RFC 8259 grammar of Spec/Grammar.lean, word for word, in which
+    every string (value or key, at any depth) is an `LString o` literal. So what the lenient
+    options add is exactly: documents that are strict-valid except for unpaired high-surrogate
+    escapes (truncated-pair option) and lone low-surrogate escapes (invalid-code-point option),
+    each decoded to one U+FFFD. Both directions, every text, every record, no bound (hub theorems
+    `machine_eq_rd`, `Len.rd_sound`, `Len.rd_complete`). -/
+theorem C12_document_exact (o : ParseOptions) (cs : List Char) (v : JValue) :
+    (∃ cm, parseStr o cs = .ok (v, cm)) ↔ LDoc o cs v :=
+  accepts_iff_o o cs v
+
+/-- with both options off that grammar is RFC 8259 itself … -/
+theorem C12_strict_is_rfc8259 (cs : List Char) (v : JValue) : LDoc ⟨false, false⟩ cs v ↔ GDoc cs v :=
+  ldoc_strict cs v
+
+/-- … every RFC 8259 text keeps its content under every record, and the content of a text under a
+    record is unique. -/
+theorem C12_document_conservative (o : ParseOptions) (cs : List Char) (v : JValue) (h : GDoc cs v) :
+    LDoc o cs v ∧ ∀ v', LDoc o cs v' → v' = v :=
+  ⟨gdoc_ldoc o h, fun _ h' => ldoc_unique o h' (gdoc_ldoc o h)⟩
+
+/-! Non-vacuity of the lenient grammar: a lone high surrogate in a key and a lone low surrogate in
+    a value, accepted with one U+FFFD each under the record that allows both. -/
+example : LDoc ⟨true, true⟩ "{\"\\ud800k\":[\"\\udc00\"]}".toList
+    (.object [([fffd, 'k'], .array [.string [fffd]])]) := by
+  apply (C12_document_exact _ _ _).1
+  unfold parseStr; rw [← parseCharsF_eq]; exact ⟨_, rfl⟩
 
 /-! Non-vacuity: a strict-valid document with a surrogate pair and duplicate keys. -/
 example : ∃ r, parseStr strictOpts "{\"a\":\"\\ud834\\udd1e\",\"a\":[1e2]}".toList = .ok r := by
